@@ -189,7 +189,7 @@ inductive Inj where
 
 inductive Fail where
   | io (e : Errno)
-  | mismatch | unreadable | destExists | rollbackErr | patchFailed
+  | mismatch | unreadable | destExists | rollbackErr | patchFailed | dupId
   | panic
   deriving DecidableEq, Repr
 
@@ -426,6 +426,8 @@ structure Cfg where
   id : Bytes
   entry : UInt8            -- the byte that stands for the history entry this command appends
   force : Bool := false
+  /-- the id of the entry is new by construction (`redo-<id>-<timestamp>`): no duplicate-id check can hit -/
+  freshId : Bool := false
 
 /-- one `state.log(…)` line.  `ign = false`: `state.log(…)?` — a write error aborts the caller like any other error;
     `ign = true`: the line is dropped and the operation goes on (a log must never change the course of what it logs) -/
@@ -600,6 +602,13 @@ def originals (t : Tree) (files : List Path) : List (Path × Bytes) :=
     | some (.file c _) => if Utf8.valid c then some (f, c) else none
     | _ => none)
 
+/-- `History::add_entry`: a plan id that is already recorded is rejected ("History entry with ID … already exists"),
+    otherwise the history is saved with the new entry -/
+def addEntry (cfg : Cfg) : M Unit := do
+  let t ← getTree
+  if !cfg.freshId && (loadHist t).contains cfg.entry then throw .dupId
+  else saveHist cfg.entry
+
 /-- everything after the renames, in the order the code had up to repo HEAD e472ec7: patches, history entry, stored
     plan; a failure simply returns (no rollback) -/
 def recordLegacy (cfg : Cfg) (perf : List (Path × Path)) (orig : List (Path × Bytes)) : M Unit := do
@@ -612,7 +621,7 @@ def recordLegacy (cfg : Cfg) (perf : List (Path × Path)) (orig : List (Path × 
   | none => pure ()
   logM cfg
   logM cfg
-  saveHist cfg.entry
+  addEntry cfg
   mkdirs pPlans
   doOp (.openw (pStored cfg.id) true false)
   writeAll (pStored cfg.id) blob
@@ -641,7 +650,7 @@ def recordCommit (cfg : Cfg) (perf : List (Path × Path)) (orig : List (Path × 
     throw e
   | none => pure ()
   logM cfg
-  let h ← tryCatch (saveHist cfg.entry)
+  let h ← tryCatch (addEntry cfg)
   match h with
   | some e => do
     ignoreErr (doOp (.unlink (pStored cfg.id)))
@@ -649,7 +658,7 @@ def recordCommit (cfg : Cfg) (perf : List (Path × Path)) (orig : List (Path × 
   | none => pure ()
 
 /-- `apply_plan` -/
-def applyPlanM (cfg : Cfg) (plan : Plan) : M Unit := do
+def applyPlanBody (cfg : Cfg) (plan : Plan) : M Unit := do
   match cfg.log with
   | some lp => do
     mkdirs lp.dropLast
@@ -674,6 +683,15 @@ def applyPlanM (cfg : Cfg) (plan : Plan) : M Unit := do
         throw e
       logM cfg
     else recordLegacy cfg perf orig
+
+def applyPlanMF (dupUpFront : Bool) (cfg : Cfg) (plan : Plan) : M Unit := do
+  -- `dupUpFront` (repo commit c3d511b): a plan whose id is already in the history is refused BEFORE anything is
+  -- touched — unconditionally; `add_entry` at the end would reject it anyway, but only after the tree was edited
+  let t0 ← getTree
+  if dupUpFront && !cfg.freshId && (loadHist t0).contains cfg.entry then throw .dupId
+  else applyPlanBody cfg plan
+
+def applyPlanM (cfg : Cfg) (plan : Plan) : M Unit := applyPlanMF ExecFlags.dupIdRefusedUpFront cfg plan
 
 -- the commands -------------------------------------------------------------------------------------------
 def entryApply : UInt8 := 65
@@ -702,7 +720,7 @@ def hunkFits (t : Tree) (h : Hunk) : Bool :=
 def bodyRedoF (pre : Bool) (plan : Plan) : M Unit := do
   let t ← getTree
   if pre && !plan.hunks.all (hunkFits t) then throw .mismatch
-  else applyPlanM { log := some pApplyLog, id := idRedo, entry := entryRedo } plan
+  else applyPlanM { log := some pApplyLog, id := idRedo, entry := entryRedo, freshId := true } plan
 
 def bodyRedo (plan : Plan) : M Unit := bodyRedoF ExecFlags.redoPrevalidate plan
 
@@ -715,6 +733,12 @@ def bodyReplace (plan : Plan) : M Unit := do
     (and `undo`, below) do is read from the source (translate/execflags.py) -/
 def cmdRename (plan : Plan) : M Unit := withLockF true (bodyRename plan)
 def cmdApply (plan : Plan) : M Unit := withLockF ExecFlags.lockApply (bodyApply plan)
+/-- `apply <id>` / `apply <plan file>`: a stored plan is applied again; no plan.json is removed afterwards -/
+def bodyReapply (plan : Plan) : M Unit :=
+  applyPlanM { log := some (pLogFile idNew), id := idNew, entry := entryApply } plan
+
+def cmdReapply (plan : Plan) : M Unit := withLockF ExecFlags.lockApply (bodyReapply plan)
+
 def cmdRedo (plan : Plan) : M Unit := withLockF ExecFlags.lockRedo (bodyRedo plan)
 def cmdReplace (plan : Plan) : M Unit := withLockF ExecFlags.lockReplace (bodyReplace plan)
 
